@@ -41,6 +41,12 @@ for l in open("/verif/properties.jsonl"):
     if i not in ids:
         continue
     prop = f"Property {i}: {p['title']}\n\nStatement: {p['statement']}\n\nQuantified over: {p['quantifier']['text']}\n\nRelevant files: {', '.join(p['anchors']['files'])}\n"
-    open(f"{d}/{i}.prompt", "w").write(tmpl.replace("__DIR__", d).replace("__ID__", i).replace("__PROPERTY__", prop))
+    text = tmpl.replace("__DIR__", d).replace("__ID__", i).replace("__PROPERTY__", prop)
+    # one-line summaries of the changes already kept for this property (ideas only, nothing about the checks)
+    import glob
+    ideas = [json.load(open(f))["summary"].split(". ")[0][:160] for f in sorted(glob.glob(f"/verif/seeded/{i}-*/meta.json"))]
+    if ideas:
+        text += "\n\nAlready-known ideas (do NOT repeat these or close variants; find different mechanisms and, if possible, different functions):\n" + "\n".join(f"- {x}" for x in ideas) + "\n"
+    open(f"{d}/{i}.prompt", "w").write(text)
 EOF
 git -C /repo worktree list | wc -l
